@@ -104,7 +104,159 @@ Lemma update_and_rearm_ar s0 s k r c s' ev : update_and_rearm s k r c = (s', ev)
 Proof. unfold update_and_rearm. intros H A. repeat (split_hyp H); inv H; eauto 10 with ar. Qed.
 #[export] Hint Resolve update_and_rearm_ar : ar.
 
-Ltac ar_big H := repeat (split_hyp H); inv H; eauto 25 with ar.
+Ltac brk_hyps :=
+  repeat match goal with
+  | Hx : context [match ?x with _ => _ end] |- _ =>
+      lazymatch type of Hx with
+      | _ = (_, _) => let y := hd_scrut x in first [ is_var y; destruct y | destruct y eqn:? ]; cbv beta iota zeta in Hx
+      end
+  end.
+Ltac ar_big H := repeat (split_hyp H); inv H; brk_hyps; brk; eauto 25 with ar.
 
 Lemma lock_step_ar s0 s conn c s' ev w : lock_step s conn c = (s', ev, w) -> arel s0 s -> arel s0 s'.
-Proof. unfold lock_step. intros H A. cbv zeta in H. ar_big H. all: idtac "REMAINING". Show. Qed.
+Proof.
+  unfold lock_step. intros H A. cbv zeta in H.
+  match type of H with context [match aget (mgrs s) (c_key c) with Some _ => s | None => ?X end] =>
+    set (s1 := match aget (mgrs s) (c_key c) with Some _ => s | None => X end) in H;
+    assert (A1 : arel s0 s1) by (unfold s1; brk; eauto with ar) end.
+  clearbody s1. ar_big H.
+Qed.
+#[export] Hint Resolve lock_step_ar : ar.
+
+(* ------------------------------------------------------------------ Engine2.v *)
+Lemma cancel_wait_lock_ar s0 s conn c s' ev w : cancel_wait_lock s conn c = (s', ev, w) -> arel s0 s -> arel s0 s'.
+Proof. unfold cancel_wait_lock. intros H A. cbv zeta in H. ar_big H. Qed.
+#[export] Hint Resolve cancel_wait_lock_ar : ar.
+
+Lemma release_hold_ar s0 s k conn c r d s' ev : release_hold s k conn c r d = (s', ev) -> arel s0 s -> arel s0 s'.
+Proof. unfold release_hold. intros H A. cbv zeta in H. ar_big H. Qed.
+#[export] Hint Resolve release_hold_ar : ar.
+
+Lemma unlock_step_ar s0 s conn c s' ev w : unlock_step s conn c = (s', ev, w) -> arel s0 s -> arel s0 s'.
+Proof. unfold unlock_step. intros H A. cbv zeta in H. ar_big H. Qed.
+#[export] Hint Resolve unlock_step_ar : ar.
+
+Lemma wake_grant_ar s0 s k r via s' ev : wake_grant s k r via = (s', ev) -> arel s0 s -> arel s0 s'.
+Proof. unfold wake_grant. intros H A. cbv zeta in H. ar_big H. Qed.
+#[export] Hint Resolve wake_grant_ar : ar.
+
+Lemma wake_iter_ar s0 s w s' ev res : wake_iter s w = (s', ev, res) -> arel s0 s -> arel s0 s'.
+Proof. unfold wake_iter. intros H A. cbv zeta in H. ar_big H. Qed.
+#[export] Hint Resolve wake_iter_ar : ar.
+
+Lemma run_wake_ar fuel : forall s0 s w s' ev, run_wake fuel s w = (s', ev) -> arel s0 s -> arel s0 s'.
+Proof.
+  induction fuel as [|f IH]; simpl; intros s0 s w s' ev H A.
+  - inv H. auto.
+  - destruct (wake_iter s w) as [[s1 e1] res] eqn:E. destruct res.
+    + inv H. eauto with ar.
+    + destruct (run_wake f s1 w) as [s2 e2] eqn:E2. inv H. eauto with ar.
+Qed.
+#[export] Hint Resolve run_wake_ar : ar.
+
+Lemma finish_ar s0 s ev w s' ev' : finish (s, ev, w) = (s', ev') -> arel s0 s -> arel s0 s'.
+Proof.
+  unfold finish. intros H A. destruct w as [w|]; [|inv H; auto].
+  destruct (run_wake _ s w) as [s1 e1] eqn:E. inv H. eauto with ar.
+Qed.
+
+Lemma do_timeout_ar s0 s r s' ev w : do_timeout s r = (s', ev, w) -> arel s0 s -> arel s0 s'.
+Proof. unfold do_timeout. intros H A. cbv zeta in H. ar_big H. Qed.
+Lemma do_expried_ar s0 s r s' ev w : do_expried s r = (s', ev, w) -> arel s0 s -> arel s0 s'.
+Proof. unfold do_expried. intros H A. cbv zeta in H. ar_big H. Qed.
+Lemma do_ack_ar s0 s r ok s' ev w : do_ack s r ok = (s', ev, w) -> arel s0 s -> arel s0 s'.
+Proof. unfold do_ack. intros H A. cbv zeta in H. ar_big H. Qed.
+#[export] Hint Resolve do_timeout_ar do_expried_ar do_ack_ar : ar.
+
+Lemma finish_f_ar (f : db -> ref -> db * list event * option wake) :
+  (forall s0 s r s' ev w, f s r = (s', ev, w) -> arel s0 s -> arel s0 s') ->
+  forall s0 s r s' ev, finish (f s r) = (s', ev) -> arel s0 s -> arel s0 s'.
+Proof.
+  intros Hf s0 s r s' ev H A. destruct (f s r) as [[s1 e1] w1] eqn:E. eapply finish_ar; [exact H|]. eapply Hf; eauto.
+Qed.
+
+Lemma fire_all_ar (f : db -> ref -> db * list event * option wake) :
+  (forall s0 s r s' ev w, f s r = (s', ev, w) -> arel s0 s -> arel s0 s') ->
+  forall due s0 s s' ev, fire_all f s due = (s', ev) -> arel s0 s -> arel s0 s'.
+Proof.
+  intros Hf. induction due as [|r rest IH]; simpl; intros s0 s s' ev H A.
+  - inv H. auto.
+  - destruct (finish (f s r)) as [s1 e1] eqn:E1. destruct (fire_all f s1 rest) as [s2 e2] eqn:E2. inv H.
+    eapply IH; [exact E2|]. eapply finish_f_ar; eauto.
+Qed.
+
+Lemma sweep_t_slot_ar fuel : forall s0 s slot nowv due s' due', sweep_t_slot fuel s slot nowv due = (s', due') -> arel s0 s -> arel s0 s'.
+Proof.
+  induction fuel as [|f IH]; simpl; intros s0 s slot nowv due s' due' H A.
+  - inv H. auto.
+  - repeat (split_hyp H); try (inv H; eauto 10 with ar; fail); (eapply IH; [exact H|]); eauto 15 with ar. Show.
+Qed.
+
+Lemma sweep_long_ar items : forall s0 s is_t due s' due', sweep_long s items is_t due = (s', due') -> arel s0 s -> arel s0 s'.
+Proof.
+  induction items as [|r rest IH]; simpl; intros s0 s is_t due s' due' H A.
+  - inv H. auto.
+  - repeat (split_hyp H); (eapply IH; [exact H|]); eauto 15 with ar.
+Qed.
+
+Lemma collect_timeouts_ar s0 s t nowv s' due : collect_timeouts s t nowv = (s', due) -> arel s0 s -> arel s0 s'.
+Proof.
+  unfold collect_timeouts. cbv zeta. intros H A.
+  destruct (sweep_t_slot _ s (slot_of t) nowv []) as [s1 d1] eqn:E1.
+  assert (A1 : arel s0 s1) by (eapply sweep_t_slot_ar; eauto).
+  destruct (aget (tlong s1) (lkey t)); [|inv H; auto].
+  eapply sweep_long_ar; [exact H|]. eauto with ar.
+Qed.
+
+Lemma sweep_e_slot_ar fuel : forall s0 s slot nowv due ev s' due' ev',
+  sweep_e_slot fuel s slot nowv due ev = (s', due', ev') -> arel s0 s -> arel s0 s'.
+Proof.
+  induction fuel as [|f IH]; simpl; intros s0 s slot nowv due ev s' due' ev' H A.
+  - inv H. auto.
+  - repeat (split_hyp H); try (inv H; eauto 10 with ar; fail); (eapply IH; [exact H|]); eauto 15 with ar.
+Qed.
+
+Lemma collect_expiries_ar s0 s t nowv s' due ev : collect_expiries s t nowv = (s', due, ev) -> arel s0 s -> arel s0 s'.
+Proof.
+  unfold collect_expiries. cbv zeta. intros H A.
+  destruct (sweep_e_slot _ s (slot_of t) nowv [] []) as [[s1 d1] e1] eqn:E1.
+  assert (A1 : arel s0 s1) by (eapply sweep_e_slot_ar; eauto).
+  destruct (aget (elong s1) (lkey t)); [|inv H; auto].
+  destruct (sweep_long _ l false d1) as [s2 d2] eqn:E2. inv H.
+  eapply sweep_long_ar; [exact E2|]. eauto with ar.
+Qed.
+
+Lemma sweep_t_secs_ar n : forall s0 s t nowv s' ev, sweep_t_secs n s t nowv = (s', ev) -> arel s0 s -> arel s0 s'.
+Proof.
+  induction n as [|n IH]; simpl; intros s0 s t nowv s' ev H A.
+  - inv H. auto.
+  - destruct (collect_timeouts s t nowv) as [s1 due] eqn:E1.
+    destruct (fire_all do_timeout s1 due) as [s2 e2] eqn:E2.
+    destruct (sweep_t_secs n s2 (t + 1)%Z nowv) as [s3 e3] eqn:E3. inv H.
+    eapply IH; [exact E3|]. eapply (fire_all_ar do_timeout); [exact do_timeout_ar|exact E2|]. eapply collect_timeouts_ar; eauto.
+Qed.
+
+Lemma sweep_e_secs_ar n : forall s0 s t nowv s' ev, sweep_e_secs n s t nowv = (s', ev) -> arel s0 s -> arel s0 s'.
+Proof.
+  induction n as [|n IH]; simpl; intros s0 s t nowv s' ev H A.
+  - inv H. auto.
+  - destruct (collect_expiries s t nowv) as [[s1 due] e1] eqn:E1.
+    destruct (fire_all do_expried s1 due) as [s2 e2] eqn:E2.
+    destruct (sweep_e_secs n s2 (t + 1)%Z nowv) as [s3 e3] eqn:E3. inv H.
+    eapply IH; [exact E3|]. eapply (fire_all_ar do_expried); [exact do_expried_ar|exact E2|]. eapply collect_expiries_ar; eauto.
+Qed.
+
+(* every engine action *)
+Theorem step_arel : forall s a s' ev, step s a = (s', ev) -> arel s s'.
+Proof.
+  intros s a s' ev H. destruct a; simpl in H.
+  - destruct (c_lock c).
+    + destruct (lock_step s conn c) as [[s1 e1] w1] eqn:E. eapply finish_ar; [exact H|]. eapply lock_step_ar; eauto with ar.
+    + destruct (unlock_step s conn c) as [[s1 e1] w1] eqn:E. eapply finish_ar; [exact H|]. eapply unlock_step_ar; eauto with ar.
+  - inv H. eauto with ar.
+  - unfold sweep_timeouts in H. cbv zeta in H. eapply sweep_t_secs_ar; [exact H|]. eauto with ar.
+  - unfold sweep_expiries in H. cbv zeta in H. eapply sweep_e_secs_ar; [exact H|]. eauto with ar.
+  - destruct (do_ack s r ok) as [[s1 e1] w1] eqn:E. eapply finish_ar; [exact H|]. eapply do_ack_ar; eauto with ar.
+  - inv H. eauto with ar.
+Qed.
+
